@@ -36,7 +36,7 @@ func AddStandardFilters(fd FilterDictionary) { //nolint: gocyclo
 		return value
 	})
 	fd.AddFilter("json", func(a any) any {
-		result, _ := json.Marshal(a)
+		result, _ := marshalJSON(a)
 		return result
 	})
 
@@ -274,7 +274,7 @@ func AddStandardFilters(fd FilterDictionary) { //nolint: gocyclo
 	// debugging filters
 	// inspect is from Jekyll
 	fd.AddFilter("inspect", func(value any) string {
-		s, err := json.Marshal(value)
+		s, err := marshalJSON(value)
 		if err != nil {
 			return fmt.Sprintf("%#v", value)
 		}
@@ -283,6 +283,17 @@ func AddStandardFilters(fd FilterDictionary) { //nolint: gocyclo
 	fd.AddFilter("type", func(value any) string {
 		return fmt.Sprintf("%T", value)
 	})
+}
+
+// marshalJSON is json.Marshal, with a panic in a value's MarshalJSON or MarshalText
+// method (a method promoted from a nil embedded pointer, say) turned into an error.
+func marshalJSON(value any) (result []byte, err error) {
+	defer func() {
+		if r := recover(); r != nil {
+			result, err = nil, fmt.Errorf("json: %v", r)
+		}
+	}()
+	return json.Marshal(value)
 }
 
 // roundHalfUp rounds n half up to the given number of decimal places. It works
